@@ -214,7 +214,7 @@ class Table:
             idx = self.members[j]
             wsum = math.fsum(bins[i][5] for i in idx)
             wmean = math.fsum(bins[i][5] * bins[i][4] for i in idx) / wsum if idx else 0.0
-            level = {"wmean": wmean, "zero": 0.0, "shift": wmean + 0.375}[mode]
+            level = {"wmean": wmean, "zero": 0.0, "shift": wmean + 0.375, "tiny": wmean + 0.001}[mode]
             s.extend(["G%d" % j, level, len(idx), wsum])
         self.segs = segs
         self._frames = None
@@ -1057,6 +1057,7 @@ BT_COMBOS = [
     ("abut", "cycle2", "wmean"),
     ("abut", "ones", "shift"),
     ("gaps", "cycle", "shift"),
+    ("abut", "ones", "tiny"),  # weight exactly 1 and a residual of a thousandth: z is still infinite, p = 0, the bin is a hit
 ]
 BT_COMBOS_LONG = [("abut", "cycle", "shift"), ("abut", "cycle2", "wmean"), ("gaps", "cycle", "zero")]
 
